@@ -7,9 +7,10 @@ own expansion, inserted text not rescanned, {{TOC}} is not a file, markers of 10
 Acyclic graphs: result and manifest must equal the model byte for byte.  Cyclic graphs: the call must
 return and the output stay within the size bound; CLI with a file argument agrees with the library.
 """
-import os, re, shutil, subprocess, tempfile
+import os, re, shutil, subprocess, tempfile, collections
 from lib import core, drv as D, build
 
+WORD_RE = re.compile(r'(?<![A-Za-z0-9])w\d+(?![A-Za-z0-9])')
 ID = 'C13'
 WILD = {0: '.html', 12: '.html', 1: '.html', 2: '.tex', 3: '.tex', 4: '.tex', 5: '.fodt', 6: '.fodt'}
 FMTS = [0, 2, 5, 11]
@@ -39,7 +40,7 @@ def gen_graph(rng, tdir):
         meta = []
         if name != 'top.txt' and rng.random() < 0.4:
             meta.append(('Title', 'T ' + w()))
-        if rng.random() < 0.25:
+        if rng.random() < (0.5 if kind in ('selfloop', 'cycle') else 0.25):
             meta.append(('transclude base', rng.choice(['.', 'sub', 'sub/', './', '..', tdir, os.path.join(tdir, 'sub')])))
         if meta and rng.random() < 0.3:
             meta.append(('Author', 'A {{a.txt}} ' + w()))        # a marker inside metadata is not expanded
@@ -173,7 +174,8 @@ def model(texts, tdir, top, fmt):
                 fp = inner if inner.startswith('/') else with_sep(search) + inner
                 if len(inner) >= 2 and fmt != 11 and inner.endswith('.*'):
                     fp = fp[:-2] + WILD.get(fmt, '.txt')
-                if fp in stack[:depth]:
+                # identity of a file, not the spelling of its path ("./a.txt" and "a.txt" are the same file being expanded)
+                if os.path.realpath(fp) in [os.path.realpath(x) for x in stack[:depth]]:
                     cyc[0] = True
                     last += 2
                 else:
@@ -264,6 +266,15 @@ def work(job):
                 else:
                     r.stats['cyclic_graphs_terminated'] += 1
                     r.stats['cyclic_model_agrees (reported, not judged)'] += int(got == exp)
+                    # "a file being expanded is not expanded again inside itself": every file's own words appear at most once per
+                    # inclusion path without repetition -- that count is what the reference expansion holds
+                    ce, cg = collections.Counter(WORD_RE.findall(exp)), collections.Counter(WORD_RE.findall(got))
+                    r.stats['cyclic_graphs_path_counted'] += 1
+                    over = sorted(w for w in cg if w in ce and cg[w] > ce[w])
+                    if over:
+                        feat = 'base' if any(t['base'] for t in texts.values()) else ('wildcard' if '.*' in ''.join(t['text'] for t in texts.values()) else 'plain')
+                        r.violate('cycle-expanded-again:%s' % feat, 'a file inside a cycle was expanded more often than once per inclusion path: word %s appears %d times, %d paths reach it (%s graph)' %
+                                  (over[0], cg[over[0]], ce[over[0]], g.kind), case, 'output length %d, reference %d' % (len(got), len(exp)))
                 # manifest through the API families
                 if i % 3 == 0:
                     fam = rng.randrange(3)
